@@ -29,9 +29,16 @@ Definition not_event (x : titem) : Prop := match x with TEv _ => False | _ => Tr
 Definition housekeeping (x : titem) : Prop :=
   match x with TEv EvPoll | TEv EvUnresponsive => True | TEv _ => False | _ => True end.
 
+Lemma ext_close_socket_gen (ok : titem -> Prop) : ok TSockClose -> forall c, ext_by ok c (close_socket c).
+Proof.
+  intros H c. unfold close_socket. destruct (k_sock c); [|apply ext_refl].
+  exists [TSockClose]. split; [reflexivity|constructor; [exact H|constructor]].
+Qed.
+
 Ltac ext_inst L ok0 :=
   first [eapply L with (P := ext_by ok0) (ok_item := ok0) | eapply L with (P := ext_by ok0)];
   try exact (ext_refl ok0); try exact (ext_trans ok0);
+  try (apply ext_close_socket_gen; exact I);
   try (intros; apply send_from_emit with (ok_item := ok0); try exact (ext_refl ok0); try exact (ext_trans ok0);
        try (intros; apply ext_emit; assumption); try (intros; apply ext_field; reflexivity); try (intros; exact I));
   try (intros; apply ext_emit; assumption);
